@@ -51,6 +51,9 @@ type h5ref[T num, A any] interface {
 type kit[T num, A arr[T, A]] struct {
 	name      string
 	elemSize  int
+	cSize     int // size of the C element type behind the C-backed array (Go int <-> C int: 4 bytes)
+	cGet      func(c *cbuf, i int) float64
+	cSet      func(c *cbuf, i int, v float64)
 	newGo     func(dims []int) A
 	fromSlice func(vals []T, dims []int) A
 	newC      func(ptr unsafe.Pointer, dims []int) A
@@ -62,6 +65,9 @@ type kit[T num, A arr[T, A]] struct {
 
 var kitFloat64 = kit[float64, data.NDFloat64]{
 	name: "float64", elemSize: int(unsafe.Sizeof(float64(0))),
+	cSize: int(unsafe.Sizeof(float64(0))),
+	cGet:  func(c *cbuf, i int) float64 { return float64(unsafeSlice[float64](c, i+1)[i]) },
+	cSet:  func(c *cbuf, i int, v float64) { unsafeSlice[float64](c, i+1)[i] = float64(v) },
 	newGo:     data.NewArrayFloat64,
 	fromSlice: data.ArrayFromSliceFloat64,
 	newC:      cdata.NewFloat64CArray,
@@ -75,6 +81,9 @@ var kitFloat64 = kit[float64, data.NDFloat64]{
 
 var kitFloat32 = kit[float32, data.NDFloat32]{
 	name: "float32", elemSize: int(unsafe.Sizeof(float32(0))),
+	cSize: int(unsafe.Sizeof(float32(0))),
+	cGet:  func(c *cbuf, i int) float64 { return float64(unsafeSlice[float32](c, i+1)[i]) },
+	cSet:  func(c *cbuf, i int, v float64) { unsafeSlice[float32](c, i+1)[i] = float32(v) },
 	newGo:     data.NewArrayFloat32,
 	fromSlice: data.ArrayFromSliceFloat32,
 	newC:      cdata.NewFloat32CArray,
@@ -88,6 +97,9 @@ var kitFloat32 = kit[float32, data.NDFloat32]{
 
 var kitInt32 = kit[int32, data.NDInt32]{
 	name: "int32", elemSize: int(unsafe.Sizeof(int32(0))),
+	cSize: int(unsafe.Sizeof(int32(0))),
+	cGet:  func(c *cbuf, i int) float64 { return float64(unsafeSlice[int32](c, i+1)[i]) },
+	cSet:  func(c *cbuf, i int, v float64) { unsafeSlice[int32](c, i+1)[i] = int32(v) },
 	newGo:     data.NewArrayInt32,
 	fromSlice: data.ArrayFromSliceInt32,
 	newC:      cdata.NewInt32CArray,
@@ -101,6 +113,9 @@ var kitInt32 = kit[int32, data.NDInt32]{
 
 var kitUint32 = kit[uint32, data.NDUint32]{
 	name: "uint32", elemSize: int(unsafe.Sizeof(uint32(0))),
+	cSize: int(unsafe.Sizeof(uint32(0))),
+	cGet:  func(c *cbuf, i int) float64 { return float64(unsafeSlice[uint32](c, i+1)[i]) },
+	cSet:  func(c *cbuf, i int, v float64) { unsafeSlice[uint32](c, i+1)[i] = uint32(v) },
 	newGo:     data.NewArrayUint32,
 	fromSlice: data.ArrayFromSliceUint32,
 	newC:      cdata.NewUint32CArray,
@@ -114,6 +129,9 @@ var kitUint32 = kit[uint32, data.NDUint32]{
 
 var kitInt64 = kit[int64, data.NDInt64]{
 	name: "int64", elemSize: int(unsafe.Sizeof(int64(0))),
+	cSize: int(unsafe.Sizeof(int64(0))),
+	cGet:  func(c *cbuf, i int) float64 { return float64(unsafeSlice[int64](c, i+1)[i]) },
+	cSet:  func(c *cbuf, i int, v float64) { unsafeSlice[int64](c, i+1)[i] = int64(v) },
 	newGo:     data.NewArrayInt64,
 	fromSlice: data.ArrayFromSliceInt64,
 	newC:      cdata.NewInt64CArray,
@@ -127,6 +145,9 @@ var kitInt64 = kit[int64, data.NDInt64]{
 
 var kitUint64 = kit[uint64, data.NDUint64]{
 	name: "uint64", elemSize: int(unsafe.Sizeof(uint64(0))),
+	cSize: int(unsafe.Sizeof(uint64(0))),
+	cGet:  func(c *cbuf, i int) float64 { return float64(unsafeSlice[uint64](c, i+1)[i]) },
+	cSet:  func(c *cbuf, i int, v float64) { unsafeSlice[uint64](c, i+1)[i] = uint64(v) },
 	newGo:     data.NewArrayUint64,
 	fromSlice: data.ArrayFromSliceUint64,
 	newC:      cdata.NewUint64CArray,
@@ -140,6 +161,9 @@ var kitUint64 = kit[uint64, data.NDUint64]{
 
 var kitInt = kit[int, data.NDInt]{
 	name: "int", elemSize: int(unsafe.Sizeof(int(0))),
+	cSize: int(unsafe.Sizeof(int32(0))),
+	cGet:  func(c *cbuf, i int) float64 { return float64(unsafeSlice[int32](c, i+1)[i]) },
+	cSet:  func(c *cbuf, i int, v float64) { unsafeSlice[int32](c, i+1)[i] = int32(v) },
 	newGo:     data.NewArrayInt,
 	fromSlice: data.ArrayFromSliceInt,
 	newC:      cdata.NewIntCArray,
@@ -150,6 +174,9 @@ var kitInt = kit[int, data.NDInt]{
 
 var kitUint = kit[uint, data.NDUint]{
 	name: "uint", elemSize: int(unsafe.Sizeof(uint(0))),
+	cSize: int(unsafe.Sizeof(uint32(0))),
+	cGet:  func(c *cbuf, i int) float64 { return float64(unsafeSlice[uint32](c, i+1)[i]) },
+	cSet:  func(c *cbuf, i int, v float64) { unsafeSlice[uint32](c, i+1)[i] = uint32(v) },
 	newGo:     data.NewArrayUint,
 	fromSlice: data.ArrayFromSliceUint,
 	newC:      cdata.NewUintCArray,
